@@ -196,7 +196,7 @@ InitPL3 ==
 \* first power-levels event of a room (no current one), bad user key, creators in v12, sender not joined
 InitPL0 ==
     \E sender \in {"creator", "alice"}, haspl \in BOOLEAN, addl \in {{}, {"alice"}},
-       k \in PLKeys, n \in PLVals, bad \in BOOLEAN, cu \in {Absent, 2} :
+       k \in PLKeys, n \in PLVals, bad \in BOOLEAN, cu \in {Absent, 2, NoPLCreator} :   \* NoPLCreator: the entry spells out the implicit level
        LET s0 == [WithMem(WithMem(BaseSt, "alice", "join"), "creator", "join") EXCEPT !.create.addl = addl]
            base == BasePL(2)
        IN /\ st = IF haspl THEN WithPL(s0, base) ELSE s0
